@@ -46,7 +46,9 @@ def ro_shape(mid, roid, done=False, late_mid=False):
                      story_node("S1"), story_node("S2")]}
 
 
-def abstract_msg(kind, mid):
+def abstract_msg(kind, mid, quiet=False):
+    if kind == "ok" and quiet:      # a message that applies without changing anything: still one step of the fold, and
+        return project.empty_msg("ReadyToAir")          # still refused by a completed running order
     m = project.empty_msg({"ok": "StoryAppend", "ok2": "StoryAppend", "warn": "StoryDelete", "warn2": "StoryDelete", "fail": "StoryReplace",
                            "roDelete": "RunningOrderEnd", "roReplace": "RunningOrderReplace"}[kind])
     if kind == "ok":
@@ -103,7 +105,8 @@ def render_docs(docs, seed, cid, style="plain"):
         if d["kind"] in ("roCreate", "roCreateDone"):
             texts.append(g.ro(ro_shape(f(d["mid"]), g.roid(d["roid"]), done=d["kind"] == "roCreateDone", late_mid=late)))
         else:
-            texts.append(g.msg(abstract_msg(d["kind"], d["mid"]), message_id=f(d["mid"]), ro_id=d["roid"], late_mid=late))
+            quiet = random.Random("%s|%s|quiet|%s" % (seed, cid, d["mid"])).random() < 0.25
+            texts.append(g.msg(abstract_msg(d["kind"], d["mid"], quiet), message_id=f(d["mid"]), ro_id=d["roid"], late_mid=late))
     return texts
 
 
